@@ -80,6 +80,10 @@ func (op *seriesFiltering) findSeriesIDsByExpr(condition stmt.Expr) (tag.KeyID, 
 	case *stmt.NotExpr:
 		// get filter series ids
 		tagKey, matchResult := op.findSeriesIDsByExpr(expr.Expr)
+		if op.tagKeyNotFound(expr.Expr) {
+			// not(filter of a tag key which not exist under current node): no series has the tag key
+			return 0, roaring.New()
+		}
 		// get all series ids for tag key
 		all, err := op.indexDB.GetSeriesIDsForTag(tagKey)
 		if err != nil {
@@ -102,11 +106,27 @@ func (op *seriesFiltering) findSeriesIDsByExpr(condition stmt.Expr) (tag.KeyID, 
 	return 0, roaring.New() // create an empty series ids for parent expr
 }
 
+// tagKeyNotFound returns if the expr is a tag filter whose tag key does not exist under current node.
+func (op *seriesFiltering) tagKeyNotFound(expr stmt.Expr) bool {
+	if paren, ok := expr.(*stmt.ParenExpr); ok {
+		return op.tagKeyNotFound(paren.Expr)
+	}
+	if _, ok := expr.(stmt.TagFilter); !ok {
+		return false
+	}
+	tagValues, ok := op.executeCtx.StorageExecuteCtx.TagFilterResult[expr.Rewrite()]
+	return ok && tagValues.KeyNotFound
+}
+
 // getTagKeyID returns the tag key id by tag key
 func (op *seriesFiltering) getSeriesIDsByExpr(expr stmt.Expr) (tag.KeyID, *roaring.Bitmap, error) {
 	tagValues, ok := op.executeCtx.StorageExecuteCtx.TagFilterResult[expr.Rewrite()]
 	if !ok {
 		return 0, nil, fmt.Errorf("%w, expr: %s", constants.ErrTagValueFilterResultNotFound, expr.Rewrite())
+	}
+	if tagValues.KeyNotFound {
+		// tag key not exist under current node, no series matches
+		return tagValues.TagKeyID, roaring.New(), nil
 	}
 	seriesIDs, err := op.indexDB.GetSeriesIDsByTagValueIDs(tagValues.TagKeyID, tagValues.TagValueIDs)
 	if err != nil {
